@@ -156,7 +156,12 @@ BitVals(t) ==
        mk(LAMBDA j : (Pow2(t.fs[j].bits) - 1) * unit(j)),
        mk(LAMBDA j : j * unit(j)),
        mk(LAMBDA j : IF j = 1 THEN Pow2(t.fs[j].bits) * unit(j) ELSE 0),
-       mk(LAMBDA j : IF j = Len(t.fs) THEN Pow2(t.fs[j].bits) * unit(j) ELSE unit(j))>>
+       mk(LAMBDA j : IF j = Len(t.fs) THEN Pow2(t.fs[j].bits) * unit(j) ELSE unit(j)),
+       \* un-shifted members: bits below the member's position, and bits both below and above its mask
+       \* (for shifted members these are an ordinary small value and a too-large one)
+       mk(LAMBDA j : IF j = Len(t.fs) THEN unit(j) + 1 ELSE 0),
+       mk(LAMBDA j : IF j = Len(t.fs) THEN (Pow2(t.fs[j].bits) - 1) * unit(j) + (unit(j) - 1) ELSE 0),
+       mk(LAMBDA j : IF j = Len(t.fs) THEN Pow2(t.fs[j].bits) * unit(j) + unit(j) + 1 ELSE unit(j))>>
 
 RECURSIVE V(_)
 ChoiceVals(ch, mk(_, _)) == Flat([j \in 1..Len(ch) |-> LET vs == Cap(V(ch[j].t), CapIn) IN [x \in 1..Len(vs) |-> mk(ch[j], vs[x])]])
